@@ -90,6 +90,7 @@ type sched struct {
 	parkCh chan parkReq
 	epoch  atomic.Int64
 	stepNo atomic.Int64
+	curG   atomic.Int64
 	byGoid map[int64]*G
 	all    []*G
 	last   *G
@@ -175,6 +176,20 @@ func Entropy(site string, n int) int {
 	}
 	m := yieldReq(s, parkReq{site: site, simID: -1, needEnt: n})
 	return int(m.ent)
+}
+
+// CurG returns the simulated id of the goroutine that is currently allowed to run (-1 outside a
+// simulation). Only one simulated goroutine runs at a time, so this is the caller's own id.
+//
+//go:norace
+func CurG() int {
+	raceDisable()
+	defer raceEnable()
+	s := cur.Load()
+	if s == nil {
+		return -1
+	}
+	return int(s.curG.Load())
 }
 
 // Pre yields and returns the scheduling epoch to be passed to Post.
@@ -438,6 +453,7 @@ func run(cfg Config, main func()) (*Result, chan struct{}) {
 			m.child = c.ID
 		}
 		g.state = stRunning
+		s.curG.Store(int64(g.ID))
 		g.Steps++
 		s.last = g
 		s.epoch.Add(1)
